@@ -35,7 +35,7 @@ func runC19(c *Ctx) {
 	seen := map[string]int{}
 	// each refresh outcome has its own upstream, so that a connection closed on purpose cannot take
 	// other keys' refreshes down with it (the transports would retry them: more upstream queries)
-	upOf := map[string]string{"rfok": "pipe", "rfclose": "tcp", "rfsilent": "dotp", "rftc": "dot"}
+	upOf := map[string]string{"rfok": "pipe", "rfclose": "tcp", "rfsilent": "dotp", "rftc": "dot", "rfshort": "pipe"}
 	hook := func(q *fakeup.QueryLog, d *fakeup.Directives) {
 		k := chKey(q.Name, q.Qtype, q.Qclass)
 		mu.Lock()
@@ -46,6 +46,10 @@ func runC19(c *Ctx) {
 			return
 		}
 		switch {
+		case strings.Contains(q.Name, "rfshort"):
+			// a successful refresh whose records carry a smaller TTL than what is left of the old entry
+			d.Delay = 500
+			d.TTL = 2
 		case strings.Contains(q.Name, "rfok"):
 			d.Delay = 1500
 		case strings.Contains(q.Name, "rflong"):
@@ -82,7 +86,7 @@ func runC19(c *Ctx) {
 	reps := c.N(1, 4)
 	for rep := 0; rep < reps; rep++ {
 		for _, n := range bursts {
-			for _, oc := range []string{"rfok", "rfclose", "rfsilent", "rftc"} {
+			for _, oc := range []string{"rfok", "rfclose", "rfsilent", "rftc", "rfshort"} {
 				keys = append(keys, &key{name: fmt.Sprintf("ok-n2-ttl16-%s-b%dr%dx%d.%s.test.", oc, n, rep, c.Seed, upOf[oc]), burst: n, outcome: oc, ttl: 16, hitAges: []float64{12.3}})
 			}
 		}
@@ -163,7 +167,9 @@ func runC19(c *Ctx) {
 				return
 			}
 			ages := []float64{13.0, 14.7, 15.4}
-			if k.outcome != "rfok" {
+			if k.outcome == "rfshort" {
+				ages = []float64{13.6, 13.9} // the 2 s refresh arrives at 12.8 s
+			} else if k.outcome != "rfok" {
 				ages = []float64{12.9, 13.3}
 			}
 			for _, age := range ages {
@@ -291,10 +297,10 @@ func runC19(c *Ctx) {
 				if endI == 0 { // never answered (silent / closed): the proxy waits for its 6 s prefetch timeout or the connection error
 					if k.outcome == "rfsilent" {
 						endI = fs[i].TRecv + int64(5500*time.Millisecond)
-					} else if k.outcome == "rflong" || k.outcome == "rfmany" || k.outcome == "rfok" {
+					} else if k.outcome == "rflong" || k.outcome == "rfmany" || k.outcome == "rfok" || k.outcome == "rfshort" {
 						// the scripted delay had not elapsed when the log was read: the refresh is in flight
 						// until the reply is sent (a little less, to stay on the safe side)
-						endI = fs[i].TRecv + map[string]int64{"rflong": 4400, "rfmany": 2900, "rfok": 1400}[k.outcome]*int64(time.Millisecond)
+						endI = fs[i].TRecv + map[string]int64{"rflong": 4400, "rfmany": 2900, "rfok": 1400, "rfshort": 400}[k.outcome]*int64(time.Millisecond)
 					} else {
 						endI = fs[i].TRecv + int64(280*time.Millisecond) // the scripted close happens 300 ms after the query arrived
 					}
@@ -326,7 +332,7 @@ func runC19(c *Ctx) {
 			}
 			age := time.Duration(r.TSend - k.first.TRecv)
 			switch k.outcome {
-			case "rfok":
+			case "rfok", "rfshort":
 				// the refresh reply was sent at fs[1].TSend; a probe sent 700 ms later must see the renewed entry
 				if len(fs) >= 2 && fs[1].TSend != 0 && r.TSend > fs[1].TSend+int64(700*time.Millisecond) {
 					if r.Serial == old {
@@ -340,7 +346,7 @@ func runC19(c *Ctx) {
 								maxTTL = rr.Header().Ttl
 							}
 						}
-						if maxTTL > uint32(k.ttl) {
+						if maxTTL > uint32(k.ttl) || (k.outcome == "rfshort" && maxTTL > 2) {
 							c.Violation("refresh-ttl", fmt.Sprintf("renewed entry shows ttl %d > %d", maxTTL, k.ttl), cs(nil))
 							continue
 						}
